@@ -45,7 +45,9 @@ func (e failsafeEngine) Gen(prop, tier string, seed uint64, idx int) *runner.Cas
 	case idx < ps:
 		kind := gen.PlusKinds[idx/4]
 		b := gen.NewBundle(gen.NewRng(777, idx))
+		b.Variant = idx % 4
 		b.Plus(kind)
+		b.Variant = -1
 		if idx%4 >= 2 { // with some ordinary material around
 			b.Plant(gen.Pick(rng, gen.BundleHolders), gen.Pick(rng, gen.BundleContainers), gen.Pick(rng, gen.BundleTargets), 1)
 		}
@@ -91,12 +93,18 @@ func (e failsafeEngine) Gen(prop, tier string, seed uint64, idx int) *runner.Cas
 			} else {
 				b = gen.RndBundle(r2, 6)
 			}
+			if idx%3 == 0 {
+				b.Plus(gen.Pick(r2, gen.ResolvablePlusKinds))
+			}
 			if len(b.Aux) > 0 {
 				break
 			}
 		}
 		c.Name = "fault/" + strconv.Itoa(idx)
 		c.Files, c.Tags, c.Opts = b.Files(nfObj), b.TagList(), b.Opts()
+		if idx%3 == 0 {
+			c.Opts = gen.AllOptSets(false)
+		}
 		c.Extra["mode"] = "fault"
 	case idx < ps+pr+mu+fa+wc:
 		// plain W bundles: New and Schema on every position, Flatten under every applicable option set
